@@ -11,7 +11,8 @@
 (*   X   anything else without the word LIKE (other comparison, NOT ...,   *)
 (*       a parenthesised sub-tree, NOT col <> '', (col <> '') ...)         *)
 (*   XL  anything else containing the word LIKE (NOT col LIKE .., a        *)
-(*       parenthesised sub-tree with a LIKE ...)                           *)
+(*       parenthesised sub-tree with a LIKE ...) but not the word OR       *)
+(*   XO  a parenthesised sub-tree containing the words LIKE and OR         *)
 (* and evaluates to a Kleene value per row, independently of the others.   *)
 (* The tail is end-of-text, a keyword (ORDER BY / GROUP BY / LIMIT) or ';'.*)
 (*                                                                         *)
@@ -23,17 +24,23 @@
 (*        ->  WHERE E AND <mid> <tail>.  <mid> is matched by .*? on the    *)
 (*        text, i.e. it spans OR connectives: the last factor of the last  *)
 (*        chain becomes the first factor of the first chain.               *)
+(*        Since /repo 9f6402e (OrGuard = TRUE) the rule is skipped when    *)
+(*        <mid> contains the word OR (\bOR\b on the text: a top-level OR   *)
+(*        or one inside parentheses).  OrGuard = FALSE is the code as it   *)
+(*        was written before; Like_AsWritten.cfg keeps it as a negative    *)
+(*        control that TLC must reject.                                    *)
 (* Property: for every row (every valuation of the factors) the filter     *)
 (* decision (value = TRUE) is unchanged.                                   *)
 (***************************************************************************)
 EXTENDS SqlRewrite, Json
 
-CONSTANTS MaxChains, MaxFactors, Emit
+CONSTANTS MaxChains, MaxFactors, Emit,
+          OrGuard       \* TRUE: rule 2 is skipped when an OR precedes the trailing check (current code)
 
 VARIABLES st
 vars == <<st>>
 
-Kinds == {"L", "E", "X", "XL"}
+Kinds == {"L", "E", "X", "XL", "XO"}
 Tails == {"end", "kw", "semi"}      \* kw: GROUP BY / ORDER BY / LIMIT (one regex alternation)
 
 \* all sequences over S of length 1..n
@@ -58,15 +65,20 @@ Rule1(ch) == [ch EXCEPT ![1] = [j \in 1..Len(ch[1]) |-> IF j = 1 THEN ch[1][2] E
 
 \* Rule 2: ... AND E <tail>
 LastChain(ch) == ch[Len(ch)]
-HasLike(f)    == f.k \in {"L", "XL"}
+HasLike(f)    == f.k \in {"L", "XL", "XO"}
 MidHasLike(ch) ==
     \/ \E i \in 1..(Len(ch) - 1) : \E j \in 1..Len(ch[i]) : HasLike(ch[i][j])
     \/ \E j \in 1..(Len(LastChain(ch)) - 1) : HasLike(LastChain(ch)[j])
-Rule2Matches(ch, tail) ==
+MidHasOr(ch) ==
+    \/ Len(ch) >= 2
+    \/ \E j \in 1..(Len(LastChain(ch)) - 1) : LastChain(ch)[j].k = "XO"
+Rule2MatchesG(ch, tail, guard) ==
     /\ tail \in {"end", "kw"}
     /\ Len(LastChain(ch)) >= 2
     /\ LastChain(ch)[Len(LastChain(ch))].k = "E"
     /\ MidHasLike(ch)
+    /\ ~(guard /\ MidHasOr(ch))
+Rule2Matches(ch, tail) == Rule2MatchesG(ch, tail, OrGuard)
 Rule2(ch) ==
     LET n  == Len(ch)
         lc == LastChain(ch)
@@ -85,18 +97,22 @@ Disagreeing(o, r, n) == { v \in [1..n -> K3] : Keeps(o, v) # Keeps(r, v) }
 
 Init == \E shape \in Shapes : \E tail \in Tails :
            st = [phase |-> "rule1", orig |-> Number(shape), tail |-> tail, cur |-> Number(shape),
-                 fired |-> {}, ndis |-> 0, witness |-> <<>>, cls |-> ""]
+                 fired |-> {}, ndis |-> 0, witness |-> <<>>, cls |-> "", aw |-> Number(shape), awcls |-> ""]
 
 ApplyRule1 ==
     /\ st.phase = "rule1"
     /\ st' = IF Rule1Matches(st.cur)
                THEN [st EXCEPT !.phase = "rule2", !.cur = Rule1(st.cur), !.fired = {"rule1"}]
                ELSE [st EXCEPT !.phase = "rule2"]
+\* aw / awcls: what the code as written before 9f6402e would produce (regression signature for the driver)
+AwOf(cur, tail) == IF Rule2MatchesG(cur, tail, FALSE) THEN Rule2(cur) ELSE cur
+AwCls(cur, tail, orig) == IF Rule2MatchesG(cur, tail, FALSE) /\ Len(orig) >= 2 THEN "trailing-empty-check-hoisted-across-OR" ELSE ""
 ApplyRule2 ==
     /\ st.phase = "rule2"
     /\ st' = IF Rule2Matches(st.cur, st.tail)
-               THEN [st EXCEPT !.phase = "judge", !.cur = Rule2(st.cur), !.fired = st.fired \cup {"rule2"}]
-               ELSE [st EXCEPT !.phase = "judge"]
+               THEN [st EXCEPT !.phase = "judge", !.cur = Rule2(st.cur), !.fired = st.fired \cup {"rule2"},
+                               !.aw = AwOf(st.cur, st.tail), !.awcls = AwCls(st.cur, st.tail, st.orig)]
+               ELSE [st EXCEPT !.phase = "judge", !.aw = AwOf(st.cur, st.tail), !.awcls = AwCls(st.cur, st.tail, st.orig)]
 Judge ==
     /\ st.phase = "judge"
     /\ LET n == NFactors([i \in 1..Len(st.orig) |-> [j \in 1..Len(st.orig[i]) |-> st.orig[i][j].k]])
@@ -113,12 +129,13 @@ Spec == Init /\ [][Next]_vars
 
 \* the filter decision changes for some row exactly when rule 2 carries the check across an OR
 ClassesExact == st.phase = "done" => ((st.ndis > 0) <=> (st.cls = "trailing-empty-check-hoisted-across-OR"))
-\* the property (violated; Like_Equiv.cfg prints a witness)
+\* the property: holds with OrGuard = TRUE; Like_AsWritten.cfg (OrGuard = FALSE) must be rejected by TLC
 Equivalent   == st.phase = "done" => st.ndis = 0
 
 KindsOf(ch) == [i \in 1..Len(ch) |-> [j \in 1..Len(ch[i]) |-> ch[i][j]]]
 EmitTrace ==
     (Emit /\ st.phase = "done") =>
         PrintT(<<"TRACE", ToJson([orig |-> KindsOf(st.orig), rew |-> KindsOf(st.cur), tail |-> st.tail,
-                                  fired |-> st.fired, ndis |-> st.ndis, witness |-> st.witness, cls |-> st.cls])>>)
+                                  fired |-> st.fired, ndis |-> st.ndis, witness |-> st.witness, cls |-> st.cls,
+                                  rewaw |-> KindsOf(st.aw), clsaw |-> st.awcls])>>)
 =============================================================================
